@@ -329,6 +329,30 @@ func shapedScenario(g *Gen, which int) Case {
 		}
 		steps = []interface{}{cmd("mount", "d0"), umountAll(), byHand, cmd("probe"), last, cmd("probe"),
 			cmd("umount", "dx"), cmd("probe"), last, cmd("probe")}
+	case 23, 24:
+		// a layer that was mounted once (its export links exist) and has since dropped back to
+		// "not yet populated" (23: the build tree of a base layer was emptied; 24: a derived layer
+		// lost its upper directory): removing it must take its export links away all the same
+		for _, l := range []glayer{{name: "b0", imports: imports}, {name: "u0", imports: imports},
+			{name: "d0", base: "b0", imports: imports}} {
+			genLayerTree(g, t, l, pf, false)
+		}
+		victim := "u0"
+		gone := VB + "/layers/u0/build/"
+		if which == 24 {
+			victim = "d0"
+			gone = VB + "/layers/d0/overlayfs/upperdir"
+		}
+		for k := range t.ents {
+			if strings.HasPrefix(k, gone) {
+				delete(t.ents, k)
+			}
+		}
+		t.dir(VB + "/export/packages")
+		t.dir(VB + "/export/generated")
+		t.link(VB+"/export/packages/"+victim, VB+"/layers/"+victim+"/packages")
+		t.link(VB+"/export/generated/"+victim, VB+"/layers/"+victim+"/generated")
+		steps = []interface{}{cmd("probe"), obj("cmd", "remove", "args", hxs([]string{victim}), "files", which == 24), cmd("probe")}
 	default:
 		// export directory names that differ from the layer's own directory names, explicit
 		// export directives, then rename and remove
@@ -347,7 +371,7 @@ func shapedScenario(g *Gen, which int) Case {
 
 func init() {
 	register("scn-directed", func(g *Gen, tier string, emit func(Case)) {
-		for w := 0; w < 23; w++ {
+		for w := 0; w < 25; w++ {
 			emit(shapedScenario(g, w))
 		}
 		for _, imp := range directedImports {
